@@ -37,7 +37,7 @@ CONSTANTS Files,        \* set of strings
           MaxNest,      \* nesting depth of buffered blocks
           DefaultCap,   \* the dependency's default capacity (bytes)
           FixedD1, FixedD2, FixedD3, FixedD4,   \* FALSE = as the code (deviation present)
-          MaxLevel,           \* bound on TLCGet("level") in exhaustive runs (level 1 = initial state)
+          MaxLevel,           \* bound on the number of actions + 1 in exhaustive runs (level 1 = initial state)
           PopAbsentNone       \* calibrated rule R1: pop(k) of an absent key returns None (TRUE = as the code)
 
 VARIABLES disk,     \* f -> [ex, v]            the JSON file (raw)
@@ -49,8 +49,9 @@ VARIABLES disk,     \* f -> [ex, v]            the JSON file (raw)
           depth, cap, capStack,
           writers,  \* f -> set of handles that wrote f inside the current outermost block (ghost)
           dev,      \* set of deviations that fired in this behaviour (ghost; "D1", "D2")
-          last      \* observation: [op, h, k, k2, i, form, v, res]
-vars == <<disk, ideal, open, mem, buf, reg, depth, cap, capStack, writers, dev, last>>
+          last,     \* observation: [op, h, k, k2, i, form, v, res]
+          steps     \* number of actions taken (bounds the exhaustive runs exactly, whatever the number of TLC workers)
+vars == <<disk, ideal, open, mem, buf, reg, depth, cap, capStack, writers, dev, last, steps>>
 
 Handles == {<<f, i>> : f \in Files, i \in 1..(IF NHJob > NHProj THEN NHJob ELSE NHProj)}
 LiveHandles == {h \in Handles : h[2] <= (IF h[1] \in JobFiles THEN NHJob ELSE NHProj)}
@@ -377,6 +378,7 @@ Init == /\ disk = [f \in Files |-> Absent] /\ ideal = [f \in Files |-> EmptyDoc]
         /\ buf = [f \in Files |-> NoEntry] /\ reg = <<>>
         /\ depth = 0 /\ cap = DefaultCap /\ capStack = <<>>
         /\ writers = [f \in Files |-> {}] /\ dev = {}
+        /\ steps = 0
         /\ last = [op |-> "init", h |-> NoH, k |-> NoK, k2 |-> NoK, i |-> 0, form |-> "", v |-> JNull, res |-> ROk(JNull)]
 
 KA == <<97>>
@@ -385,7 +387,7 @@ KN == <<110>>      \* "n": the key that holds the nested mapping / the list
 KC == <<99>>       \* nested key
 KBad == <<97, 46, 98>>
 DocKeys == {KA, KB}
-Next ==
+NextOp ==
   \/ \E h \in LiveHandles :
        \/ "set" \in Ops /\ \E k \in DocKeys, v \in Vals : SetItem(h, k, v)
        \/ "set" \in Ops /\ "nset" \in Ops /\ \E v \in {x \in Vals : x.t \in {"map", "list"}} \cup {JInt(1)} : SetItem(h, KN, v)
@@ -405,6 +407,7 @@ Next ==
        \/ "rekey" \in Ops /\ RekeyJob(h)
   \/ "buffer" \in Ops /\ \E c \in Caps : EnterBuffered(c)
   \/ "buffer" \in Ops /\ ExitBuffered
+Next == NextOp /\ steps' = steps + 1
 
 Spec == Init /\ [][Next]_vars
 
@@ -440,8 +443,11 @@ HypoDev == UNION {IF depth > 0 /\ buf[h[1]].in THEN TopLoss(mem[h], buf[h[1]].co
                   ELSE IF disk[h[1]].ex THEN TopLoss(mem[h], disk[h[1]].v)
                   ELSE IF ~FixedD4 /\ mem[h] # EmptyDoc THEN {"D4"} ELSE {} : h \in {x \in LiveHandles : open[x]}}
 
-LevelBound == TLCGet("level") <= MaxLevel
-NoLastView == <<disk, ideal, open, mem, buf, reg, depth, cap, capStack, writers, dev>>
+\* level = steps + 1 (level 1 = initial state).  Proof runs: VIEW ProofView (any number of workers, exact).
+\* Graph export: VIEW GraphView with ONE worker (breadth first: a state is kept with its smallest step count).
+LevelBound == steps + 1 <= MaxLevel
+ProofView == <<disk, ideal, open, mem, buf, reg, depth, cap, capStack, writers, dev, steps>>
+GraphView == <<disk, ideal, open, mem, buf, reg, depth, cap, capStack, writers, dev, last>>
 
 ---------------------------------------------------------------------------
 (* model-checking constants (cfg files cannot contain records) *)
